@@ -93,6 +93,10 @@ def cases(draw, big_ok=False):
             "la": st.integers(0, 400), "lb": st.integers(0, 400), "first": st.integers(0, 1),
             "steps": st.sampled_from([1, 1, 2, 3, 5])}))),
         "leftovers": draw(st.lists(st.integers(0, 11), max_size=3)) if draw(st.integers(0, 2)) <= fanout else [],
+        # process arm only: one writer is descheduled for a bounded time inside its first state-database
+        # transactions, between the last statement and COMMIT (a large batch, a slow fsync, a busy machine): the
+        # others must wait for it - the library opens the database with a 60 s busy timeout - not give up
+        "stall": draw(st.sampled_from([None, None, [0, 150], [1, 400], [2, 250]])),
     }
 
 
@@ -232,6 +236,26 @@ def warm_up(ctx):
     _WARM = True
 
 
+def _install_stall(ms, limit=3):
+    """This process sleeps `ms` inside its first `limit` diskcache transactions, just before COMMIT."""
+    import contextlib
+
+    import diskcache
+
+    orig = diskcache.Cache.transact
+    left = [limit]
+
+    @contextlib.contextmanager
+    def transact(self, retry=False):
+        with orig(self, retry=retry):
+            yield
+            if left[0] > 0:
+                left[0] -= 1
+                time.sleep(ms / 1000.0)
+
+    diskcache.Cache.transact = transact
+
+
 def run_procs(case, d):
     """Fork one process per writer; each sleeps drawn micro-delays at the yield points."""
     import pickle
@@ -259,6 +283,9 @@ def run_procs(case, d):
 
                 sched.install()
                 sched.activate(P())
+                stall = case.get("stall")
+                if stall and stall[0] % n == i:
+                    _install_stall(stall[1])
                 try:
                     out = ("ok", writer_fn(case, d, i)())
                 except BaseException as exc:  # noqa: BLE001
@@ -486,6 +513,8 @@ def run_case(case, ctx):  # noqa: C901, PLR0912
             cl.append("all-objects-in-one-fan-out-dir")
         if any("big0" in t for t in case["trees"]):
             cl.append("hash-pool(>1MiB files)")
+        if case.get("stall") and case["arm"] == "procs":
+            cl.append("one-writer-stalls-inside-state-transactions")
         return Result(viols, nontrivial, cl, counters)
 
 
